@@ -1,7 +1,573 @@
 /-
-  Helper lemmas (RunK): preservation of verified pieces.
+  Helper lemmas (RunK): preservation of verified pieces along the replay of a run's log (C04 at run level).
+
+  `SInv` is the structural part of the invariant (names, inodes, directories); it is kept by every logged
+  operation whatsoever. The content part is `Win` (a byte window of one inode still holds what it held at the
+  start) for the pieces of the run, and plain equality of contents for foreign pieces. Every fact about an operation
+  is `RunJ.OpFact`, taken from `RunJ.run_opFact`.
+
+  `Disj` and `HInj` have the same bodies as `RangesDisjoint` and `HInjOn` of `TB.Props.C04h` (which imports this
+  file).
 -/
 import TB.Spec.ExportSpec
+import TB.Lemmas.RunJ
 namespace TB.RunK
+open TB
+
+/-! ### the vocabulary of `TB.Props.C04h` -/
+
+def HInj (H : Bytes → Bytes) (work : List Work) : Prop :=
+  ∀ w ∈ work, ∀ b b', H b = w.hash → H b' = w.hash → b = b'
+
+def Disj (work : List Work) : Prop :=
+  (∀ (a b : Nat) (w v : Work), work[a]? = some w → work[b]? = some v → a ≠ b →
+    ∀ s ∈ w.segs, ∀ t ∈ v.segs, s.ent.isPad = false → t.ent.isPad = false → s.ent.fullTarget = t.ent.fullTarget →
+      s.off + s.len ≤ t.off ∨ t.off + t.len ≤ s.off) ∧
+  (∀ w ∈ work, ∀ (a b : Nat) (s t : WSeg), w.segs[a]? = some s → w.segs[b]? = some t → a ≠ b →
+    s.ent.isPad = false → t.ent.isPad = false → s.ent.fullTarget ≠ t.ent.fullTarget)
+
+/-! ### the structural invariant -/
+
+/-- what holds of the tree `fs` replayed from any list of logged operations on `fs0`: inodes are below `next`; the
+    names of `fs0` keep their inodes; no export image shares its inode; the directories of `fs0` are still
+    directories; no name is both a file and a directory -/
+structure SInv (table : List TEntry) (fs0 fs : Fs) : Prop where
+  lt : ∀ p i, fs.inoOf p = some i → i < fs.next
+  keep : ∀ q i, fs0.inoOf q = some i → fs.inoOf q = some i
+  na : RunJ.NoAl fs table
+  dk : ∀ q, fs0.isDir q = true → fs.isDir q = true
+  nd : ∀ q i, fs.inoOf q = some i → fs.isDir q = false
+
+variable {table : List TEntry} {fs0 : Fs}
+
+theorem SInv.base (hwf : FsWF fs0) (hna : RunJ.NoAl fs0 table) : SInv table fs0 fs0 :=
+  ⟨fun p i h => hwf.1 p i (RunF.inoOf_mem h), fun _ _ h => h, hna, fun _ h => h,
+    fun q i h => hwf.2.2.1 q i (RunF.inoOf_mem h)⟩
+
+/-- the invariant looks only at names, directories and `next` -/
+theorem SInv.congr {fs fs' : Fs} (hf : fs'.files = fs.files) (hd : fs'.dirs = fs.dirs) (hn : fs'.next = fs.next)
+    (h : SInv table fs0 fs) : SInv table fs0 fs' := by
+  have hi : ∀ p, fs'.inoOf p = fs.inoOf p := RunF.inoOf_congr hf
+  have hdir : ∀ p, fs'.isDir p = fs.isDir p := by intro p; unfold Fs.isDir; rw [hd]
+  refine ⟨?_, ?_, ?_, ?_, ?_⟩
+  · intro p i hp; rw [hn]; rw [hi] at hp; exact h.lt p i hp
+  · intro q i hq; rw [hi]; exact h.keep q i hq
+  · intro e he hp q i h1 h2; rw [hi] at h1 h2; exact h.na e he hp q i h1 h2
+  · intro q hq; rw [hdir]; exact h.dk q hq
+  · intro q i hq; rw [hi] at hq; rw [hdir]; exact h.nd q i hq
+
+theorem SInv.mkdirs {fs : Fs} (h : SInv table fs0 fs) (d : Path) : SInv table fs0 (fs.mkdirs d).1 := by
+  obtain ⟨h1, _, h3, h4, h5, _⟩ := RunF.mkdirs_spec fs d
+  have hi : ∀ p, (fs.mkdirs d).1.inoOf p = fs.inoOf p := RunF.inoOf_congr h1
+  refine ⟨?_, ?_, ?_, ?_, ?_⟩
+  · intro p i hp; rw [h3]; rw [hi] at hp; exact h.lt p i hp
+  · intro q i hq; rw [hi]; exact h.keep q i hq
+  · intro e he hp q i a b; rw [hi] at a b; exact h.na e he hp q i a b
+  · intro q hq; exact h4 q (h.dk q hq)
+  · intro q i hq
+    rw [hi] at hq
+    cases hd : (fs.mkdirs d).1.isDir q with
+    | false => rfl
+    | true =>
+      rcases h5 q hd with h' | h'
+      · rw [h.nd q i hq] at h'; cases h'
+      · rw [hq] at h'; cases h'
+
+theorem SInv.addFile {fs : Fs} {t : Path} (h : SInv table fs0 fs) (hl : fs.look t = .notFound) :
+    SInv table fs0 (RunF.addFile fs t) := by
+  obtain ⟨hnd, hnone⟩ := RunF.look_notFound hl
+  have old : ∀ q j, (RunF.addFile fs t).inoOf q = some j → (q = t ∧ j = fs.next) ∨ (q ≠ t ∧ fs.inoOf q = some j) := by
+    intro q j hq
+    rw [RunF.inoOf_addFile] at hq
+    split at hq
+    · rename_i e; cases hq; exact Or.inl ⟨e.symm, rfl⟩
+    · rename_i e; exact Or.inr ⟨fun e' => e e'.symm, hq⟩
+  refine ⟨?_, ?_, ?_, ?_, ?_⟩
+  · intro p i hp
+    show i < fs.next + 1
+    rcases old p i hp with ⟨_, rfl⟩ | ⟨_, hp⟩
+    · exact Nat.lt_succ_self _
+    · exact Nat.lt_succ_of_lt (h.lt p i hp)
+  · intro q i hq
+    have hq' := h.keep q i hq
+    rw [RunF.inoOf_addFile, if_neg]
+    · exact hq'
+    · intro e; subst e; rw [hnone] at hq'; cases hq'
+  · intro e he hp q i h1 h2
+    rcases old _ _ h1 with ⟨e1, rfl⟩ | ⟨_, h1'⟩
+    · rcases old _ _ h2 with ⟨e2, _⟩ | ⟨_, h2'⟩
+      · rw [e1, e2]
+      · exact absurd (h.lt q _ h2') (Nat.lt_irrefl _)
+    · rcases old _ _ h2 with ⟨_, rfl⟩ | ⟨_, h2'⟩
+      · exact absurd (h.lt _ _ h1') (Nat.lt_irrefl _)
+      · exact h.na e he hp q i h1' h2'
+  · intro q hq
+    rw [RunF.isDir_addFile]; exact h.dk q hq
+  · intro q i hq
+    rw [RunF.isDir_addFile]
+    rcases old _ _ hq with ⟨e1, _⟩ | ⟨_, hq'⟩
+    · rw [e1]; exact hnd
+    · exact h.nd q i hq'
+
+/-- every logged operation keeps the structural invariant (nothing is assumed of the operation) -/
+theorem SInv.step {fs : Fs} (h : SInv table fs0 fs) (o : Op) : SInv table fs0 (applyOp fs o) := by
+  unfold applyOp
+  cases o.kind with
+  | mkdirs =>
+    simp only []
+    split
+    · exact h.mkdirs o.path
+    · exact h
+  | openc =>
+    simp only []
+    split
+    · rcases RunF.openCreate_cases fs o.path with e | ⟨hl, e⟩
+      · rw [e]; exact h
+      · rw [e]; exact h.addFile hl
+    · exact h
+  | setlen n =>
+    simp only []
+    split
+    · cases fs.look o.path with
+      | file i => exact SInv.congr (fs := fs) rfl rfl rfl h
+      | _ => exact h
+    · exact h
+  | write off d =>
+    simp only []
+    split
+    · cases fs.look o.path with
+      | file i => exact SInv.congr (fs := fs) rfl rfl rfl h
+      | _ => exact h
+    · exact h
+  | _ => exact h
+
+/-- a regular file of the initial (well-formed) tree is still found, under the same inode: its proper prefixes
+    were directories and still are, so none of them can have been created as a regular file -/
+theorem SInv.look {fs : Fs} (hwf : FsWF fs0) (h : SInv table fs0 fs) {p : Path} {i : Nat}
+    (hl : fs0.look p = .file i) : fs.look p = .file i := by
+  obtain ⟨_, _, l3⟩ := RunF.look_file hl
+  have hi := h.keep p i l3
+  apply RunF.look_file_of
+  · rw [List.any_eq_false]
+    intro q hq
+    have hd : fs.isDir q = true := h.dk q (hwf.2.2.2 p i (RunF.inoOf_mem l3) q hq)
+    cases hq' : fs.inoOf q with
+    | none => simp
+    | some j =>
+      have := h.nd q j hq'
+      rw [hd] at this; cases this
+  · exact h.nd p i hi
+  · exact hi
+
+/-- the content of an inode changes only under a successful `set_len` or write on a name bound to it -/
+theorem applyOp_content {fs : Fs} (o : Op) (i : Nat) (hi : i < fs.next) :
+    (applyOp fs o).content i = fs.content i ∨
+    (fs.look o.path = .file i ∧
+      ((∃ n, o.kind = .setlen n ∧ applyOp fs o = fs.setLen i n) ∨
+       (∃ off d, o.kind = .write off d ∧ applyOp fs o = fs.writeAt i off d))) := by
+  unfold applyOp
+  cases hk : o.kind with
+  | mkdirs =>
+    simp only []
+    split
+    · exact Or.inl (RunF.content_congr (RunF.mkdirs_spec fs o.path).2.1 i)
+    · exact Or.inl rfl
+  | openc =>
+    simp only []
+    split
+    · rcases RunF.openCreate_cases fs o.path with e | ⟨_, e⟩
+      · rw [e]; exact Or.inl rfl
+      · rw [e]; exact Or.inl (RunF.content_addFile fs o.path i (Nat.ne_of_lt hi))
+    · exact Or.inl rfl
+  | setlen n =>
+    simp only []
+    split
+    · cases hl : fs.look o.path with
+      | file j =>
+        simp only []
+        by_cases hj : i = j
+        · subst hj
+          exact Or.inr ⟨rfl, Or.inl ⟨n, rfl, rfl⟩⟩
+        · exact Or.inl (RB.Fs.content_setData_other _ _ _ _ hj)
+      | _ => exact Or.inl rfl
+    · exact Or.inl rfl
+  | write off d =>
+    simp only []
+    split
+    · cases hl : fs.look o.path with
+      | file j =>
+        simp only []
+        by_cases hj : i = j
+        · subst hj
+          exact Or.inr ⟨rfl, Or.inr ⟨off, d, rfl, rfl⟩⟩
+        · exact Or.inl (RB.Fs.content_setData_other _ _ _ _ hj)
+      | _ => exact Or.inl rfl
+    · exact Or.inl rfl
+  | _ => exact Or.inl rfl
+
+theorem replay_ind {Q : Fs → Prop} {F : Op → Prop} (hstep : ∀ fs o, F o → Q fs → Q (applyOp fs o)) (ops : List Op) :
+    ∀ fs, (∀ o ∈ ops, F o) → Q fs → Q (replay fs ops) := by
+  induction ops with
+  | nil => intro fs _ h; exact h
+  | cons o ops ih =>
+    intro fs hall h
+    show Q (TB.replay (applyOp fs o) ops)
+    exact ih _ (fun o' ho' => hall o' (List.mem_cons_of_mem _ ho')) (hstep fs o (hall o List.mem_cons_self) h)
+
+/-! ### contents under `set_len` and positional writes -/
+
+theorem padTo_get {c : Bytes} {off k : Nat} (hk : k < c.length) : (RunJ.padTo c off)[k]? = c[k]? := by
+  unfold RunJ.padTo
+  split
+  · rfl
+  · rw [List.getElem?_append_left hk]
+
+theorem content_writeAt_out (fs : Fs) (i off : Nat) (d : Bytes) (k : Nat) (hk : k < (fs.content i).length)
+    (hout : k < off ∨ off + d.length ≤ k) : ((fs.writeAt i off d).content i)[k]? = (fs.content i)[k]? := by
+  obtain ⟨p1, _, _, _⟩ := RunJ.padTo_spec (fs.content i) off
+  rw [RunJ.writeAt_eq, RD.Fs.content_setData, RunJ.getElem?_write _ _ _ p1]
+  rcases hout with h | h
+  · rw [if_pos h]; exact padTo_get hk
+  · rw [if_neg (by omega), if_neg (by omega)]; exact padTo_get hk
+
+theorem content_writeAt_in (fs : Fs) (i off : Nat) (d : Bytes) (k : Nat) (h1 : off ≤ k) (h2 : k < off + d.length) :
+    ((fs.writeAt i off d).content i)[k]? = d[k - off]? := by
+  obtain ⟨p1, _, _, _⟩ := RunJ.padTo_spec (fs.content i) off
+  rw [RunJ.writeAt_eq, RD.Fs.content_setData, RunJ.getElem?_write _ _ _ p1, if_neg (by omega), if_pos h2]
+
+theorem content_writeAt_len (fs : Fs) (i off : Nat) (d : Bytes) :
+    (fs.content i).length ≤ ((fs.writeAt i off d).content i).length := by
+  obtain ⟨p1, p2, _, _⟩ := RunJ.padTo_spec (fs.content i) off
+  rw [RunJ.writeAt_eq, RD.Fs.content_setData, List.length_append, List.length_append, List.length_take,
+    List.length_drop]
+  omega
+
+theorem content_setLen_get (fs : Fs) (i n k : Nat) (hk : k < (fs.content i).length) (hn : k < n) :
+    ((fs.setLen i n).content i)[k]? = (fs.content i)[k]? := by
+  show ((fs.setData i (if n ≤ (fs.content i).length then (fs.content i).take n
+    else fs.content i ++ List.replicate (n - (fs.content i).length) 0)).content i)[k]? = _
+  rw [RD.Fs.content_setData]
+  split
+  · rw [List.getElem?_take, if_pos hn]
+  · rw [List.getElem?_append_left hk]
+
+theorem content_setLen_len (fs : Fs) (i n : Nat) : ((fs.setLen i n).content i).length = n := by
+  show ((fs.setData i (if n ≤ (fs.content i).length then (fs.content i).take n
+    else fs.content i ++ List.replicate (n - (fs.content i).length) 0)).content i).length = _
+  rw [RD.Fs.content_setData]
+  split
+  · rw [List.length_take]; omega
+  · rw [List.length_append, List.length_replicate]; omega
+
+/-! ### a byte window that still holds its initial content -/
+
+/-- the bytes `[lo, hi)` of inode `i` exist in `fs` and are those of `fs0` -/
+def Win (fs0 fs : Fs) (i lo hi : Nat) : Prop :=
+  hi ≤ (fs.content i).length ∧ ∀ k, lo ≤ k → k < hi → (fs.content i)[k]? = (fs0.content i)[k]?
+
+theorem Win.of_content_eq {fs fs' : Fs} {i lo hi : Nat} (he : fs'.content i = fs.content i)
+    (h : Win fs0 fs i lo hi) : Win fs0 fs' i lo hi := by
+  unfold Win; rw [he]; exact h
+
+theorem Win.readAt {fs : Fs} {i off len : Nat} (h : Win fs0 fs i off (off + len)) :
+    fs.readAt i off len = fs0.readAt i off len := by
+  unfold Fs.readAt
+  apply List.ext_getElem?
+  intro j
+  rw [List.getElem?_take, List.getElem?_take]
+  split
+  · rw [List.getElem?_drop, List.getElem?_drop]
+    exact h.2 (off + j) (by omega) (by omega)
+  · rfl
+
+theorem Win.setLen {fs : Fs} {i lo hi : Nat} (h : Win fs0 fs i lo hi) {n : Nat} (hn : hi ≤ n) :
+    Win fs0 (fs.setLen i n) i lo hi := by
+  refine ⟨by rw [content_setLen_len]; exact hn, ?_⟩
+  intro k h1 h2
+  rw [content_setLen_get _ _ _ _ (by have := h.1; omega) (by omega)]
+  exact h.2 k h1 h2
+
+theorem Win.writeAt_out {fs : Fs} {i lo hi : Nat} (h : Win fs0 fs i lo hi) {off : Nat} {d : Bytes}
+    (hd : hi ≤ off ∨ off + d.length ≤ lo) : Win fs0 (fs.writeAt i off d) i lo hi := by
+  refine ⟨Nat.le_trans h.1 (content_writeAt_len fs i off d), ?_⟩
+  intro k h1 h2
+  rw [content_writeAt_out _ _ _ _ _ (by have := h.1; omega) (by omega)]
+  exact h.2 k h1 h2
+
+theorem Win.writeAt_same {fs : Fs} {i lo hi : Nat} (h : Win fs0 fs i lo hi) {d : Bytes} (hl : lo + d.length = hi)
+    (hd : ∀ k, lo ≤ k → k < hi → d[k - lo]? = (fs0.content i)[k]?) : Win fs0 (fs.writeAt i lo d) i lo hi := by
+  refine ⟨Nat.le_trans h.1 (content_writeAt_len fs i lo d), ?_⟩
+  intro k h1 h2
+  rw [content_writeAt_in _ _ _ _ _ h1 (by omega)]
+  exact hd k h1 h2
+
+/-! ### `mapM`, the parts of a verifying piece -/
+
+theorem mapM_some_congr {α β : Type} {f g : α → Option β} {l : List α} {r : List β} (h : l.mapM f = some r)
+    (hfg : ∀ a ∈ l, ∀ b, f a = some b → g a = some b) : l.mapM g = some r := by
+  induction l generalizing r with
+  | nil => simp at h ⊢; exact h
+  | cons a l ih =>
+    rw [List.mapM_cons] at h ⊢
+    cases ha : f a with
+    | none => simp [ha] at h
+    | some b0 =>
+      cases hl : l.mapM f with
+      | none => simp [ha, hl] at h
+      | some bs =>
+        simp [ha, hl] at h
+        subst h
+        rw [hfg a List.mem_cons_self b0 ha, ih hl (fun a' ha' => hfg a' (List.mem_cons_of_mem _ ha'))]
+        rfl
+
+theorem segStart_zero (segs : List WSeg) : segStart segs 0 = 0 := by
+  simp [segStart]
+
+theorem segStart_succ (a : WSeg) (segs : List WSeg) (k : Nat) : segStart (a :: segs) (k + 1) = a.len + segStart segs k := by
+  simp [segStart]
+
+/-- part `k` of a successful `mapM` whose parts have the declared lengths is the slice of the concatenation that
+    starts at `segStart k` -/
+theorem mapM_flatten_slice (f : WSeg → Option Bytes) {segs : List WSeg} {ps : List Bytes}
+    (h : segs.mapM f = some ps) (hlen : ∀ s ∈ segs, ∀ b, f s = some b → b.length = s.len) :
+    ∀ k s, segs[k]? = some s → ∃ b, f s = some b ∧ (ps.flatten.drop (segStart segs k)).take s.len = b := by
+  induction segs generalizing ps with
+  | nil => intro k s hk; simp at hk
+  | cons a l ih =>
+    rw [List.mapM_cons] at h
+    cases ha : f a with
+    | none => simp [ha] at h
+    | some b0 =>
+      cases hl : l.mapM f with
+      | none => simp [ha, hl] at h
+      | some bs =>
+        simp [ha, hl] at h
+        subst h
+        have hb0 : b0.length = a.len := hlen a List.mem_cons_self b0 ha
+        intro k s hk
+        cases k with
+        | zero =>
+          simp at hk
+          subst hk
+          refine ⟨b0, ha, ?_⟩
+          rw [segStart_zero, List.drop_zero, List.flatten_cons, ← hb0, List.take_left']
+          rfl
+        | succ k =>
+          simp at hk
+          obtain ⟨b, hb, e⟩ := ih hl (fun s' hs' => hlen s' (List.mem_cons_of_mem _ hs')) k s hk
+          refine ⟨b, hb, ?_⟩
+          rw [segStart_succ, List.flatten_cons, ← hb0, List.drop_length_add_append]
+          exact e
+
+theorem segBytesIn_len {fs : Fs} {s : WSeg} {b : Bytes} (h : segBytesIn fs s = some b) : b.length = s.len := by
+  unfold segBytesIn at h
+  split at h
+  · cases h; simp
+  · split at h
+    · split at h
+      · cases h
+        unfold Fs.readAt
+        rw [List.length_take, List.length_drop]; omega
+      · cases h
+    · cases h
+
+theorem segBytesIn_nonpad {fs : Fs} {s : WSeg} {b : Bytes} (hp : s.ent.isPad = false) (h : segBytesIn fs s = some b) :
+    ∃ i, fs.look s.ent.fullTarget = .file i ∧ s.off + s.len ≤ (fs.content i).length ∧ b = fs.readAt i s.off s.len := by
+  unfold segBytesIn at h
+  split at h
+  · rename_i hp'; rw [hp] at hp'; cases hp'
+  · split at h
+    · rename_i i hl
+      split at h
+      · rename_i hlen
+        cases h
+        exact ⟨i, hl, hlen, rfl⟩
+      · cases h
+    · cases h
+
+theorem segBytesIn_of {fs : Fs} {s : WSeg} {i : Nat} (hp : s.ent.isPad = false)
+    (hl : fs.look s.ent.fullTarget = .file i) (hlen : s.off + s.len ≤ (fs.content i).length) :
+    segBytesIn fs s = some (fs.readAt i s.off s.len) := by
+  simp [segBytesIn, hp, hl, hlen]
+
+theorem segBytesIn_pad {fs fs' : Fs} {s : WSeg} (hp : s.ent.isPad = true) : segBytesIn fs' s = segBytesIn fs s := by
+  simp [segBytesIn, hp]
+
+theorem verE_transfer {H : Bytes → Bytes} {fs fs' : Fs} {w : Work}
+    (h : ∀ s ∈ w.segs, ∀ b, segBytesIn fs s = some b → segBytesIn fs' s = some b) (hver : VerE H fs w) :
+    VerE H fs' w := by
+  obtain ⟨ps, h1, h2⟩ := hver
+  exact ⟨ps, mapM_some_congr h1 h, h2⟩
+
+/-! ### foreign pieces -/
+
+/-- the images of the non-padding segments of `w` hold what they held -/
+structure FInv (table : List TEntry) (w : Work) (fs0 fs : Fs) : Prop where
+  s : SInv table fs0 fs
+  c : ∀ seg ∈ w.segs, seg.ent.isPad = false → ∀ i, fs0.inoOf seg.ent.fullTarget = some i →
+    fs.content i = fs0.content i
+
+/-- the path of a `set_len` or a write is the image of a non-padding table entry -/
+theorem opFact_path {H : Bytes → Bytes} {work : List Work} {o : Op} (hf : RunJ.OpFact H work table o)
+    (hk : (∃ n, o.kind = .setlen n) ∨ (∃ off d, o.kind = .write off d)) :
+    ∃ e ∈ table, e.isPad = false ∧ o.path = e.fullTarget := by
+  rcases hk with ⟨n, hk⟩ | ⟨off, d, hk⟩
+  · obtain ⟨e, he, hp, hpa, _⟩ := hf.1 n hk
+    exact ⟨e, he, hp, hpa⟩
+  · obtain ⟨v, _, k, sg, buf, _, hp, hent, hpa, _⟩ := hf.2 off d hk
+    exact ⟨sg.ent, hent, hp, hpa⟩
+
+theorem FInv.step {H : Bytes → Bytes} {work : List Work} {w : Work} {fs : Fs}
+    (hforeign : ∀ s ∈ w.segs, s.ent.isPad = false → ∀ e ∈ table, e.isPad = false → e.fullTarget ≠ s.ent.fullTarget)
+    (o : Op) (hf : RunJ.OpFact H work table o) (h : FInv table w fs0 fs) : FInv table w fs0 (applyOp fs o) := by
+  refine ⟨h.s.step o, ?_⟩
+  intro seg hseg hpad i hi
+  have hi' := h.s.keep _ _ hi
+  rcases applyOp_content o i (h.s.lt _ _ hi') with e | ⟨hl, hk⟩
+  · rw [e]; exact h.c seg hseg hpad i hi
+  · exfalso
+    have hio := RunF.look_file_inoOf hl
+    obtain ⟨e, he, hpe, hpath⟩ := opFact_path hf (by
+      rcases hk with ⟨n, hk, _⟩ | ⟨off, d, hk, _⟩
+      · exact Or.inl ⟨n, hk⟩
+      · exact Or.inr ⟨off, d, hk⟩)
+    rw [hpath] at hio
+    exact hforeign seg hseg hpad e he hpe (h.s.na e he hpe _ _ hio hi').symm
+
+theorem FInv.verE {H : Bytes → Bytes} {w : Work} {fs : Fs} (hwf : FsWF fs0) (h : FInv table w fs0 fs)
+    (hver : VerE H fs0 w) : VerE H fs w := by
+  refine verE_transfer ?_ hver
+  intro s hs b hb
+  cases hp : s.ent.isPad with
+  | true => rw [segBytesIn_pad hp]; exact hb
+  | false =>
+    obtain ⟨i, hl, hlen, rfl⟩ := segBytesIn_nonpad hp hb
+    have hc := h.c s hs hp i (RunF.look_file_inoOf hl)
+    rw [segBytesIn_of hp (h.s.look hwf hl) (by rw [hc]; exact hlen)]
+    unfold Fs.readAt
+    rw [hc]
+
+theorem foreign_preserved (H : Bytes → Bytes) (inp : RunIn) (hwf : FsWF inp.fs)
+    (hna : RunJ.NoAl inp.fs (run H inp).table) (w : Work)
+    (hforeign : ∀ s ∈ w.segs, s.ent.isPad = false → ∀ e ∈ (run H inp).table, e.isPad = false →
+      e.fullTarget ≠ s.ent.fullTarget)
+    (hver : VerE H inp.fs w) (ops : List Op) (hops : ∀ o ∈ ops, o ∈ (run H inp).ops) :
+    VerE H (replay inp.fs ops) w := by
+  have h0 : FInv (run H inp).table w inp.fs inp.fs := ⟨SInv.base hwf hna, fun _ _ _ _ _ => rfl⟩
+  have := replay_ind (Q := FInv (run H inp).table w inp.fs)
+    (F := RunJ.OpFact H (run H inp).work (run H inp).table)
+    (fun fs o hf h => FInv.step hforeign o hf h) ops inp.fs
+    (fun o ho => RunJ.run_opFact H inp o (hops o ho)) h0
+  exact this.verE hwf hver
+
+/-! ### the pieces of the run -/
+
+/-- the windows of the non-padding segments of `w` that were readable at the start still hold their bytes -/
+structure MInv (table : List TEntry) (w : Work) (fs0 fs : Fs) : Prop where
+  s : SInv table fs0 fs
+  c : ∀ seg ∈ w.segs, seg.ent.isPad = false → ∀ i, fs0.look seg.ent.fullTarget = .file i →
+    seg.off + seg.len ≤ (fs0.content i).length → Win fs0 fs i seg.off (seg.off + seg.len)
+
+theorem MInv.step {H : Bytes → Bytes} {work : List Work} {w : Work} {fs : Fs}
+    (hsame : RunJ.SameLen table) (hrange : SegsInRange w) (hent : ∀ seg ∈ w.segs, seg.ent ∈ table)
+    (hdisj : Disj work) (hinj : HInj H work) (hw : w ∈ work)
+    {ps : List Bytes} (hps : w.segs.mapM (segBytesIn fs0) = some ps) (hH : H ps.flatten = w.hash)
+    (o : Op) (hf : RunJ.OpFact H work table o) (h : MInv table w fs0 fs) : MInv table w fs0 (applyOp fs o) := by
+  refine ⟨h.s.step o, ?_⟩
+  intro seg hseg hpad i hl0 hlen0
+  have hW := h.c seg hseg hpad i hl0 hlen0
+  have hi' := h.s.keep _ _ (RunF.look_file_inoOf hl0)
+  rcases applyOp_content o i (h.s.lt _ _ hi') with e | ⟨hl, hk⟩
+  · exact hW.of_content_eq e
+  · have hio := RunF.look_file_inoOf hl
+    rcases hk with ⟨n, hk, e⟩ | ⟨off, d, hk, e⟩
+    · -- `set_len` to the declared length of an entry with the same image
+      obtain ⟨e', he', hpe, hpa, hn⟩ := hf.1 n hk
+      rw [hpa] at hio
+      have heq : seg.ent.fullTarget = e'.fullTarget := h.s.na e' he' hpe _ _ hio hi'
+      have hfl : e'.fileLength = seg.ent.fileLength := hsame e' he' seg.ent (hent seg hseg) hpe hpad heq.symm
+      rw [e]
+      exact hW.setLen (by have := hrange seg hseg; omega)
+    · obtain ⟨v, hv, k, sg, buf, hsg, hpsg, hsent, hpa, hoff, hHb, hbl, hd⟩ := hf.2 off d hk
+      rw [hpa] at hio
+      have heq : seg.ent.fullTarget = sg.ent.fullTarget := h.s.na sg.ent hsent hpsg _ _ hio hi'
+      have hdl : d.length = sg.len := by
+        rw [hd, List.length_take, List.length_drop]; omega
+      obtain ⟨a, ha⟩ := List.getElem?_of_mem hw
+      obtain ⟨b, hb⟩ := List.getElem?_of_mem hv
+      obtain ⟨j, hj⟩ := List.getElem?_of_mem hseg
+      rw [e, hoff]
+      by_cases hab : a = b
+      · -- a write of the piece itself: the same segment, the same bytes
+        subst hab
+        rw [ha] at hb
+        cases hb
+        by_cases hjk : j = k
+        · subst hjk
+          rw [hj] at hsg
+          cases hsg
+          obtain ⟨b', hb', hsl⟩ := mapM_flatten_slice _ hps (fun _ _ _ hb => segBytesIn_len hb) j seg hj
+          obtain ⟨i', hl', _, hbr⟩ := segBytesIn_nonpad hpad hb'
+          rw [hl0] at hl'
+          cases hl'
+          have hbuf : buf = ps.flatten := hinj w hw buf ps.flatten hHb hH
+          rw [hbuf, hsl, hbr] at hd
+          refine hW.writeAt_same (by omega) ?_
+          intro x h1 h2
+          rw [hd]
+          unfold Fs.readAt
+          rw [List.getElem?_take, if_pos (by omega), List.getElem?_drop]
+          congr 1
+          omega
+        · exact absurd heq (hdisj.2 w hw j k seg sg hj hsg hjk hpad hpsg)
+      · -- a write of another piece: disjoint ranges
+        have := hdisj.1 a b w v ha hb hab seg hseg sg (List.mem_of_getElem? hsg) hpad hpsg heq
+        exact hW.writeAt_out (by omega)
+
+theorem MInv.verE {H : Bytes → Bytes} {w : Work} {fs : Fs} (hwf : FsWF fs0) (h : MInv table w fs0 fs)
+    (hver : VerE H fs0 w) : VerE H fs w := by
+  refine verE_transfer ?_ hver
+  intro s hs b hb
+  cases hp : s.ent.isPad with
+  | true => rw [segBytesIn_pad hp]; exact hb
+  | false =>
+    obtain ⟨i, hl, hlen, rfl⟩ := segBytesIn_nonpad hp hb
+    have hW := h.c s hs hp i hl hlen
+    rw [segBytesIn_of hp (h.s.look hwf hl) hW.1, hW.readAt]
+
+/-- the entries of the segments of the run's work items are entries of the run's table -/
+theorem run_work_ent (H : Bytes → Bytes) (inp : RunIn) :
+    ∀ w ∈ (run H inp).work, ∀ seg ∈ w.segs, seg.ent ∈ (run H inp).table := by
+  unfold run
+  simp only []
+  split
+  · intro w hw; cases hw
+  split
+  · intro w hw; cases hw
+  · split
+    · intro w hw; cases hw
+    · split
+      · intro w hw; cases hw
+      · rename_i work hwork
+        exact convertPiecesToWork_ent hwork
+
+theorem run_preserved (H : Bytes → Bytes) (inp : RunIn) (hwf : FsWF inp.fs)
+    (hna : RunJ.NoAl inp.fs (run H inp).table)
+    (hrange : ∀ w ∈ (run H inp).work, SegsInRange w)
+    (hsame : RunJ.SameLen (run H inp).table)
+    (hdisj : Disj (run H inp).work) (hinj : HInj H (run H inp).work)
+    (w : Work) (hw : w ∈ (run H inp).work) (hver : VerE H inp.fs w)
+    (ops : List Op) (hops : ∀ o ∈ ops, o ∈ (run H inp).ops) :
+    VerE H (replay inp.fs ops) w := by
+  obtain ⟨ps, hps, hH⟩ := hver
+  have h0 : MInv (run H inp).table w inp.fs inp.fs := by
+    refine ⟨SInv.base hwf hna, ?_⟩
+    intro seg _ _ i _ hlen
+    exact ⟨hlen, fun _ _ _ => rfl⟩
+  have := replay_ind (Q := MInv (run H inp).table w inp.fs)
+    (F := RunJ.OpFact H (run H inp).work (run H inp).table)
+    (fun fs o hf h => MInv.step hsame (hrange w hw) (run_work_ent H inp w hw) hdisj hinj hw hps hH o hf h)
+    ops inp.fs (fun o ho => RunJ.run_opFact H inp o (hops o ho)) h0
+  exact this.verE hwf ⟨ps, hps, hH⟩
 
 end TB.RunK
